@@ -64,7 +64,7 @@ package json
 //@ func json.(*parserState).consumeArray
 //@   requires ibOK(p, b)
 //@   requires [C16_cap] capOK(p)
-//@   requires [C16_lvl] 1 <= lvl && lvl <= p.maxRecursion + 1
+//@   requires [C16_lvl] 1 <= lvl && lvl <= p.maxRecursion + 8
 //@   assigns p.ib, p.currPath, p.firstToken, p.querySatisfied
 //@   ensures 0 <= n && n <= len(b)
 //@   ensures [C08C09_J2] old(p.ib) <= p.ib && p.ib <= old(p.ib) + len(b)
@@ -72,7 +72,7 @@ package json
 //@   ensures [C09_closed] n > 0 ==> b[n-1] == ']'
 //@   ensures [C10_stack_grows] len(p.currPath) >= old(len(p.currPath))
 //@   ensures [C10_stack_restored] n > 0 ==> p.currPath == old(p.currPath)
-//@   decreases p.maxRecursion + 2 - lvl, 1
+//@   decreases p.maxRecursion + 9 - lvl, 1
 //@   loop 1 invariant 0 <= n && n <= len(b) && p.ib == old(p.ib) + n
 //@   loop 1 invariant [C10_stack] len(p.currPath) == old(len(p.currPath)) + 1 && p.currPath[:len(p.currPath)-1] == old(p.currPath)
 //@   loop 1 decreases len(b) - n
@@ -80,7 +80,7 @@ package json
 //@ func json.(*parserState).consumeObject
 //@   requires ibOK(p, b)
 //@   requires [C16_cap] capOK(p)
-//@   requires [C16_lvl] 1 <= lvl && lvl <= p.maxRecursion + 1
+//@   requires [C16_lvl] 1 <= lvl && lvl <= p.maxRecursion + 8
 //@   assigns p.ib, p.currPath, p.firstToken, p.querySatisfied
 //@   ensures 0 <= n && n <= len(b)
 //@   ensures [C08C09_J2] old(p.ib) <= p.ib && p.ib <= old(p.ib) + len(b)
@@ -88,7 +88,7 @@ package json
 //@   ensures [C09_closed] n > 0 ==> b[n-1] == '}'
 //@   ensures [C10_stack_grows] len(p.currPath) >= old(len(p.currPath))
 //@   ensures [C10_stack_restored] n > 0 ==> p.currPath == old(p.currPath)
-//@   decreases p.maxRecursion + 2 - lvl, 1
+//@   decreases p.maxRecursion + 9 - lvl, 1
 //@   loop 1 invariant 0 <= n && n <= len(b) && p.ib == old(p.ib) + n
 //@   loop 1 invariant [C10_stack] p.currPath == old(p.currPath)
 //@   loop 1 decreases len(b) - n
@@ -96,7 +96,7 @@ package json
 //@ func json.(*parserState).consumeValue
 //@   requires ibOK(p, b)
 //@   requires [C16_cap] capOK(p)
-//@   requires [C16_lvl] 0 <= lvl && lvl <= p.maxRecursion + 1
+//@   requires [C16_lvl] 0 <= lvl && lvl <= p.maxRecursion + 8
 //@   assigns p.ib, p.currPath, p.firstToken, p.querySatisfied
 //@   ensures 0 <= n && n <= len(b)
 //@   ensures ok ==> n > 0
@@ -104,12 +104,12 @@ package json
 //@   ensures [C08_J1] ok ==> p.ib == old(p.ib) + n
 //@   ensures [C10_stack_grows] len(p.currPath) >= old(len(p.currPath))
 //@   ensures [C10_stack_restored] ok ==> p.currPath == old(p.currPath)
-//@   decreases p.maxRecursion + 2 - lvl, 0
+//@   decreases p.maxRecursion + 9 - lvl, 0
 
 //@ func json.(*parserState).consumeAny
 //@   requires ibOK(p, b)
 //@   requires [C16_cap] capOK(p)
-//@   requires [C16_lvl] 0 <= lvl && lvl <= p.maxRecursion + 1
+//@   requires [C16_lvl] 0 <= lvl && lvl <= p.maxRecursion + 8
 //@   assigns p.ib, p.currPath, p.firstToken, p.querySatisfied
 //@   ensures 0 <= n && n <= len(b)
 
